@@ -154,6 +154,13 @@ class CallMixin:
                 return k(st, o)
             if isinstance(o, (VMap, VRow)) and f.name == "keys":
                 return k(st, VKeys(o))
+            if isinstance(o, VStr) and f.name == "format":
+                # the text produced is opaque (only ever printed or used as an opaque key)
+                return k(st, VStr(None, z3.Const(fresh_name("fmt"), StrSort)))
+            if isinstance(o, VStr) and f.name in ("startswith", "endswith") and len(args) == 1 and isinstance(args[0], VStr):
+                if o.s is not None and args[0].s is not None:
+                    return k(st, VBool(getattr(o.s, f.name)(args[0].s)))
+                return k(st, VBool(z3.Function("str_" + f.name, StrSort, StrSort, z3.BoolSort())(o.t, args[0].t)))
             if isinstance(o, VDict) and f.name == "get":
                 key = args[0]
                 if isinstance(key, VStr) and key.s is not None:
@@ -699,6 +706,10 @@ class CallMixin:
             if isinstance(x, (VObj, VList)):
                 return k(st, VInt(x.t))
             raise Unsupported("id of %r" % (x,))
+        if name == "float" and len(args) == 1 and ops.to_int(args[0]) is not None:
+            # float(i) of an int, only ever fed to the ceil/floor(i / c) idiom: kept exact (see the assumption recorded there)
+            self.assumptions.add("float(i) of an int is treated as exact (true while |i| < 2**53)")
+            return k(st, VInt(ops.to_int(args[0])))
         if name in ("min", "max") and len(args) == 2 and all(ops.to_int(a) is not None for a in args):
             a, b = ops.to_int(args[0]), ops.to_int(args[1])
             return k(st, VInt(z3.If(a <= b, a, b) if name == "min" else z3.If(a >= b, a, b)))
@@ -723,6 +734,11 @@ class CallMixin:
                 return k(st, VStr(None, z3.Function("str_of_int", I, StrSort)(x.t)))
             if isinstance(x, VU):
                 return k(st, VStr(None, z3.Function("str_of_u", USort, StrSort)(x.t)))
+            if isinstance(x, VNone):
+                return k(st, VStr("None"))
+            if isinstance(x, VOpt):
+                return self.branch(st, x.isnone, lambda s: k(s, VStr("None")),
+                                   lambda s: self.call_builtin(s, ctx, name, [x.val], kwargs, k, node))
             raise Unsupported("str() of %r" % (x,))
         if name == "tuple":
             x = args[0] if args else VTuple([])
@@ -799,7 +815,23 @@ class CallMixin:
                 raise Unsupported("object.__new__ of %r" % (c,))
             return k(st, new_obj(st, c.name))
         if name in ("math.ceil", "math.floor"):
-            raise Unsupported(name)
+            # only the idiom ceil/floor(i / c) with ints i and a positive literal c: exact rational arithmetic
+            x = args[0]
+            xi = ops.to_int(x)
+            if xi is not None:
+                return k(st, VInt(xi))
+            if isinstance(x, VU) and z3.is_app(x.t) and x.t.decl().name() == "U_truediv":
+                a, b = x.t.children()
+                if all(z3.is_app(y) and y.decl().name() == ops.u_of_int(z3.IntVal(0)).decl().name() for y in (a, b)):
+                    ai, bi = a.children()[0], z3.simplify(b.children()[0])
+                    if not z3.is_int_value(bi):
+                        self.oblige(st, "line%s::%s-divisor-positive" % (line, name.split(".")[1]), bi > 0, line)
+                    if not z3.is_int_value(bi) or bi.as_long() > 0:
+                        self.assumptions.add("%s(i / c) on ints is evaluated in exact arithmetic (CPython goes through a float: exact while |i| < 2**53)" % name)
+                        if name == "math.floor":
+                            return k(st, VInt(ai / bi))            # z3 integer division: floor for a positive divisor
+                        return k(st, VInt(-((-ai) / bi)))
+            raise Unsupported(name + " of %r" % (x,))
         raise Unsupported("builtin %s (line %s)" % (name, line))
 
     def do_isinstance(self, st, ctx, x, cl, k, node):
